@@ -1,4 +1,5 @@
-\* exhaustive: the repaired design satisfies the contract (2 slots, all create kinds, setup depth 4, 2 probes)
+\* exhaustive: the repaired design satisfies the contract (2 slots, all create kinds, setup depth 4, 2 probes, every
+\* address shape on every create)
 SPECIFICATION Spec
 CHECK_DEADLOCK FALSE
 VIEW view
